@@ -274,7 +274,7 @@ func (e *env) counters() counters {
 // quiesce waits until every dial recorded so far has been accepted by its listener and the byte
 // counters stopped moving, so that later activity can be attributed to the next request.
 func (e *env) quiesce() counters {
-	deadline := time.Now().Add(2 * time.Second)
+	deadline := time.Now().Add(8 * time.Second)
 	last := e.counters()
 	stable := 0
 	for time.Now().Before(deadline) {
@@ -639,7 +639,16 @@ func (e *env) runConn(ctx *core.Ctx, cc *connCase) {
 				ctx.SpecFail("a request failing an enabled control is answered "+fmt.Sprint(sv.status)+" ("+sv.why+")", class, one, impl,
 					fmt.Sprintf("status %d", res.Status))
 			}
-			if len(dials) > 0 || after.accepts != before.accepts || after.bytes != before.bytes {
+			// An accept that shows up in this window without a dial of this request and without a byte may
+			// belong to an EARLIER dial of this environment whose listener was slow to report it (loaded
+			// machine: quiesce gave up waiting). It is attributed to that dial as long as the listeners have
+			// not accepted more connections than dials were ever recorded; a connection opened behind the
+			// recorded dial function still shows as a surplus.
+			lateAccept := len(dials) == 0 && after.bytes == before.bytes && after.accepts != before.accepts &&
+				int(after.accepts) <= e.dialCount()
+			if lateAccept {
+				ctx.Count("late-accept-attributed-to-an-earlier-dial")
+			} else if len(dials) > 0 || after.accepts != before.accepts || after.bytes != before.bytes {
 				ctx.SpecFail("no connection is opened and no byte is sent upstream for a refused request", class, one, impl,
 					fmt.Sprintf("dials=%v accepts+%d bytes+%d", dials, after.accepts-before.accepts, after.bytes-before.bytes))
 			}
